@@ -144,6 +144,11 @@ func (cs *concurrentStrategy) Dec(APIStream public_types.APIStreamI) error {
 	cs.mutex.Unlock()
 
 	if !found {
+		// The request holds no slot at this level, but it may hold one further up: a limiter
+		// attached to the parent admits requests this (full) child refused to count.
+		if cs.parent != nil {
+			return cs.parent.GetQuota().Dec(APIStream)
+		}
 		return nil
 	}
 
